@@ -331,9 +331,22 @@ impl GraphEngine {
 
     // T203: HNSW Public API
     pub fn insert_vector(&self, id: InternalNodeId, vector: Vec<f32>) -> Result<()> {
+        // Lock order as in commit and create_index: catalog, then pager.
+        let mut catalog = self.index_catalog.lock().unwrap();
         let mut pager = self.pager.write().unwrap();
         let mut idx = self.vector_index.lock().unwrap();
-        idx.insert(&mut *pager, id, vector)
+        idx.insert(&mut *pager, id, vector)?;
+        // The two B-trees behind the index get a new root page when their root splits; the
+        // catalog is where the next open looks the roots up, so record a moved root there.
+        for (name, root) in [
+            ("__sys_hnsw_vec", idx.vector_store().root()),
+            ("__sys_hnsw_graph", idx.graph_store().root()),
+        ] {
+            if catalog.get(name).map(|def| def.root) != Some(root) {
+                catalog.update_root(&mut pager, name, root)?;
+            }
+        }
+        Ok(())
     }
 
     pub fn search_vector(&self, query: &[f32], k: usize) -> Result<Vec<(InternalNodeId, f32)>> {
